@@ -5,6 +5,7 @@ package main
 // driver), with the oracle evaluated after every step.
 
 import (
+	"bytes"
 	"encoding/json"
 	"errors"
 	"fmt"
@@ -23,6 +24,7 @@ import (
 
 	"verif/core"
 	"verif/seqx"
+	"verif/vos"
 	"verif/vtime"
 )
 
@@ -55,7 +57,7 @@ func alphabet(http bool) []op {
 	}
 	a = append(a, op{K: "expire"}, op{K: "tick", A: "1h"}, op{K: "tick", A: "8d"},
 		op{K: "list", A: "g"}, op{K: "get", T: "T1"}, op{K: "get", T: "T2"})
-	for _, e := range []string{"drop-line", "add", "replace", "rmfile", "garbage"} {
+	for _, e := range []string{"drop-line", "add", "replace", "rmfile", "garbage", "restore-older"} {
 		a = append(a, op{K: "ext", A: e})
 	}
 	return a
@@ -86,6 +88,7 @@ type seqWorld struct {
 	alias   map[string]string
 	gen     map[string]int
 	outcome string
+	restores int // external restorations with an old mtime so far
 }
 
 func (w *seqWorld) setBind(logical, real string) {
@@ -716,6 +719,33 @@ func (w *seqWorld) ext(x op) {
 		writeLines(file, []fileLine{lineFor(t)})
 	case "rmfile":
 		os.Remove(file)
+	case "restore-older":
+		// an administrator puts back another version of the file that keeps
+		// its (older) modification time, as cp -p, rsync -t or tar do: every
+		// token's permissions are swapped for a list of the same length, so
+		// the size does not change either way
+		var nl []fileLine
+		for _, l := range lines {
+			if l.tok == nil {
+				nl = append(nl, l)
+				continue
+			}
+			t := l.tok.Clone()
+			t.Permissions = togglePerms(t.Permissions)
+			nl = append(nl, lineFor(t))
+		}
+		var b bytes.Buffer
+		for _, l := range nl {
+			b.WriteString(l.raw)
+		}
+		if err := os.WriteFile(file, b.Bytes(), 0600); err != nil {
+			panic(err)
+		}
+		w.restores++
+		old := vos.LogicalBase.Add(-time.Hour - time.Duration(w.restores)*time.Second)
+		if err := os.Chtimes(file, old, old); err != nil {
+			panic(err)
+		}
 	case "garbage":
 		writeLines(file, append(lines, fileLine{raw: `{"token":"T9","group":"g","perm`}))
 	}
